@@ -819,6 +819,17 @@ impl HashAggregateOperator {
 
         self.aggregation_complete = true;
 
+        // Without GROUP BY there is exactly one group, also when no row arrived:
+        // `count(*)` over nothing is one row holding 0, not an empty result
+        if self.group_columns.is_empty() && self.groups.is_empty() {
+            let states = self
+                .aggregates
+                .iter()
+                .map(|agg| AggregateState::new(agg.function, agg.distinct, agg.percentile))
+                .collect();
+            self.groups.insert(GroupKey(Vec::new()), states);
+        }
+
         // Convert to results iterator (IndexMap::drain takes a range)
         let results: Vec<_> = self.groups.drain(..).collect();
         self.results = Some(results.into_iter());
@@ -832,24 +843,6 @@ impl Operator for HashAggregateOperator {
         // Perform aggregation if not done
         if !self.aggregation_complete {
             self.aggregate()?;
-        }
-
-        // Special case: no groups (global aggregation with no data)
-        if self.groups.is_empty() && self.results.is_none() && self.group_columns.is_empty() {
-            // For global aggregation (no GROUP BY), return one row with initial values
-            let mut builder = DataChunkBuilder::with_capacity(&self.output_schema, 1);
-
-            for agg in &self.aggregates {
-                let state = AggregateState::new(agg.function, agg.distinct, agg.percentile);
-                let value = state.finalize();
-                if let Some(col) = builder.column_mut(self.group_columns.len()) {
-                    col.push_value(value);
-                }
-            }
-            builder.advance_row();
-
-            self.results = Some(Vec::new().into_iter()); // Mark as done
-            return Ok(Some(builder.finish()));
         }
 
         let Some(results) = &mut self.results else {
@@ -1188,6 +1181,32 @@ mod tests {
         assert_eq!(results.len(), 2);
         assert_eq!(results[0], (1, 30)); // Group 1: 10 + 20 = 30
         assert_eq!(results[1], (2, 120)); // Group 2: 30 + 40 + 50 = 120
+    }
+
+    #[test]
+    fn test_hash_aggregate_without_groups_counts_an_empty_input_as_zero() {
+        // no GROUP BY and no input row: one output row, like SimpleAggregateOperator
+        for chunks in [vec![], vec![DataChunk::empty()]] {
+            let mut agg = HashAggregateOperator::new(
+                Box::new(MockOperator::new(chunks)),
+                vec![],
+                vec![AggregateExpr::count_star(), AggregateExpr::count(0)],
+                vec![LogicalType::Int64, LogicalType::Int64],
+            );
+            let result = agg.next().unwrap().unwrap();
+            assert_eq!(result.row_count(), 1);
+            assert_eq!(result.column(0).unwrap().get_int64(0), Some(0));
+            assert_eq!(result.column(1).unwrap().get_int64(0), Some(0));
+            assert!(agg.next().unwrap().is_none());
+        }
+        // with GROUP BY an empty input has no group
+        let mut agg = HashAggregateOperator::new(
+            Box::new(MockOperator::new(vec![])),
+            vec![0],
+            vec![AggregateExpr::count_star()],
+            vec![LogicalType::Int64, LogicalType::Int64],
+        );
+        assert!(agg.next().unwrap().is_none());
     }
 
     #[test]
